@@ -334,8 +334,16 @@ def inprocess_executor(counter=None):
             pass
         try:
             value = func(*args, **kwds)
-            return True, pickle.dumps(value), units
         except Exception as e:      # noqa
+            try:
+                return False, pickle.dumps(e), units
+            except Exception:
+                return False, pickle.dumps(RuntimeError(repr(e))), units
+        try:
+            return True, pickle.dumps(value), units
+        except Exception as e:      # noqa: what multiprocessing's worker does when the result does not pickle
+            from multiprocessing.pool import MaybeEncodingError
+            e = MaybeEncodingError(e, value)
             try:
                 return False, pickle.dumps(e), units
             except Exception:
@@ -361,7 +369,11 @@ def fork_executor():
                 units = len(args[0]) if args and isinstance(args[0], list) else 1
                 try:
                     value = func(*args, **kwds)
-                    out = (True, pickle.dumps(value), units)
+                    try:
+                        out = (True, pickle.dumps(value), units)
+                    except Exception as e:  # noqa
+                        from multiprocessing.pool import MaybeEncodingError
+                        raise MaybeEncodingError(e, value)
                 except Exception as e:  # noqa
                     try:
                         out = (False, pickle.dumps(e), units)
